@@ -11,7 +11,7 @@ by the harness): F2 `mapInputs` panics on an input whose asset version is not 1,
 an empty message. The full statements are refuted with those witnesses; the partial theorems
 exclude exactly these classes.
 -/
-import BytomModel.Lemmas.CodecSafe
+import BytomModel.Lemmas.CodecAlloc
 
 namespace BytomModel.Props.C05
 open BytomModel.Codec BytomModel.Lemmas.Codec
@@ -149,6 +149,40 @@ theorem decodeMessage_nopanic_partial {α} (wire : Dec α) (hw : NoPanic wire) (
     (decodeMessage wire bz).out ≠ .panic := fun hp => h ((decodeMessage_panic_iff wire hw bz).mp hp)
 
 /-! ### allocation -/
+
+/-- `TxData.readFrom` on raw bytes: at most 360 charged bytes per input byte plus 200, on
+    every path (success, error) and for every input -/
+theorem decTx_alloc_linear (H : Bytes → Bytes) (bs : Bytes) : (decTx H bs).alloc ≤ 360 * bs.length + 200 :=
+  (decTx_lin H bs).1
+
+/-- on success the charge is bounded by the bytes actually consumed -/
+theorem decTx_alloc_consumed (H : Bytes → Bytes) (bs : Bytes) (tx : TxData) (r : Bytes) (h : (decTx H bs).out = .ok tx r) :
+    ∃ d, bs.length = r.length + d ∧ (decTx H bs).alloc ≤ 360 * d :=
+  (decTx_lin H bs).2 tx r h
+
+/-- `TxData.UnmarshalText`: hex buffer + decoder, linear in the text length
+    (`alloc ≤ 180.5·len + 200`) -/
+theorem txData_decode_alloc_linear (H : Bytes → Bytes) (text : Bytes) :
+    2 * (txDataFromText H text).alloc ≤ 361 * text.length + 400 :=
+  fromText_alloc (Lin.bind (decTx_lin H) fun tx => noTrailing_lin 360 200 tx) text
+
+/-- `Tx.UnmarshalText` (the network / RPC entry point) including the entries `MapTx`
+    allocates: linear in the text length (`alloc ≤ 692.5·len + 1224`) -/
+theorem tx_decode_alloc_linear (H : Bytes → Bytes) (text : Bytes) :
+    2 * (txFromText H text).alloc ≤ 1385 * text.length + 2448 := by
+  unfold txFromText fromText
+  cases hx : hexDecode text with
+  | none =>
+    simp only
+    have : text.length / 2 * 2 ≤ text.length := Nat.div_mul_le_self _ _
+    omega
+  | some bs =>
+    simp only
+    have hl := hexDecode_length text bs hx
+    have h1 := txMapped_alloc H bs
+    have : text.length / 2 * 2 ≤ text.length := Nat.div_mul_le_self _ _
+    unfold aEntry at h1
+    omega
 
 /-- "memory at most proportional to the input length", with the constants the harness checks on
     the real decoders (640 bytes per input byte + 64 KiB) -/
